@@ -156,6 +156,29 @@ CHECKS["C17"] = dict(
     technique="Lean 4 proof (elementary number theory on executable references, no Mathlib); differential correspondence; naive-definition oracles",
     ref="§5 C17")
 
+CHECKS["C09"] = dict(
+    text="Lean: a verified static analysis of the regenerated element templates. classify reads a template as stack operations (pops with "
+         "literal counts incl. nested pop calls, peeks, pushes, extends, neutral statements, if/loops; anything else mentioning `stack` is "
+         "whole-stack), depth bounds how deep it reaches, and stack_effect_sound proves against a concrete semantics (any value type, any "
+         "helper results, any branch, any iteration count) that a bound d <= k keeps pre of pre ++ args (|args| = k) as the same untouched "
+         "list. Kernel-checked table theorems: every entry's bound is exactly its arity, and the unbounded entries are exactly the "
+         "documented whole-stack operations. Tie: the table is regenerated on every run; sentinel-prefix runs of every key and of "
+         "modifier x element on generated argument tuples (identity and contents of the prefix, also on exceptions).",
+    note=COMMON_NOTE + "T7: statements that do not mention `stack` are neutral (a helper could reach the stack through ctx.stacks[-1]): validated by the sentinel "
+         "runs, which found exactly that for printing a function value (known finding F31). Modifier templates pop a run-time arity: sentinel runs only.",
+    technique="Lean 4 proof: abstract interpretation + soundness by mutual induction on derivations; decide +kernel over regenerated templates; sentinel differential",
+    ref="§5 C09")
+CHECKS["C10"] = dict(
+    text="Lean: a reference-level heap model (lists, and deep_copy as a lazy VIEW of the same object) with the frame theorem "
+         "history_immutable: any history of allocations, copies and writes into objects allocated during the history leaves every earlier "
+         "reference denoting the same value at every depth; the repaired assign is such a history and the shipped one is proved not to be "
+         "(the view changes, exactly the reproduced defect); mutation_sites_accounted re-checks the regenerated inventory of in-place "
+         "writes to parameters against the audited list. Tie: translator (inventory incl. the rebinding that makes a write fresh); "
+         "snapshot differential of every element's arguments, and copy-then-transform programs over dup, triplicate, variables, register, global array.",
+    note=COMMON_NOTE + "Partial: that the ~330 element bodies respect the frame condition is an assumption (T7) backed by the inventory theorem and the snapshot runs, not a proof of each body.",
+    technique="Lean 4 proof (heap model, prefix-dependence lemma by induction on depth, induction over histories); regenerated inventory; snapshot differential",
+    ref="§5 C10")
+
 NOT_YET = {}
 
 def main():
